@@ -43,4 +43,17 @@ Proof.
   - destruct (build2 p') as [E'|e'] eqn:B'; [|reflexivity].
     destruct (order2_invariant_rows p' p E' (admissible2_sym _ _ A) O' B') as (E0 & B0 & _). congruence.
 Qed.
+
+(** both directions at once: when the side condition holds of both orders, either both builds fail
+    or both succeed with solution-equivalent systems and the same initial conditions *)
+Theorem order2_invariant_iff p p' : admissible_perm2 p p' -> order_ok2 p = true -> order_ok2 p' = true ->
+  (forall E, build2 p = Ok E -> exists E', build2 p' = Ok E' /\ sys_equiv E E' /\ fs_ic E' = fs_ic E) /\
+  (forall E', build2 p' = Ok E' -> exists E, build2 p = Ok E /\ sys_equiv E E' /\ fs_ic E' = fs_ic E).
+Proof.
+  intros A O O'. split.
+  - exact (order2_invariant_sys p p' A O).
+  - intros E' B'. destruct (order2_invariant_sys p' p (admissible2_sym _ _ A) O' E' B') as (E & B & S & I).
+    exists E. split; [exact B|]. split; [|now symmetry].
+    intros v vp bv. symmetry. apply S.
+Qed.
 End Thm2.
